@@ -1,0 +1,136 @@
+//go:build verif
+
+package protocol
+
+import (
+	"encoding/json"
+	"fmt"
+	"math/rand"
+	"os"
+	"strconv"
+	"strings"
+	"sync"
+	"time"
+)
+
+// Observation hooks for the external verification harness (build tag `verif`).
+//
+// verifEvent appends one JSON line per event to the file named by
+// RDPGW_VERIF_EVENTS. The sequence number is taken under the same mutex that
+// serialises the write, so the file order is the seq order.
+//
+// verifPoint optionally sleeps at a named point to widen interleavings. It is
+// configured by RDPGW_VERIF_POINTS="name=pct:maxus,name2=pct:maxus" and seeded
+// by RDPGW_VERIF_SEED. Points are only placed where the scheduler may pre-empt
+// anyway and never inside a critical section.
+
+var verifState struct {
+	once   sync.Once
+	mu     sync.Mutex
+	seq    uint64
+	f      *os.File
+	points map[string]verifPointCfg
+	rnd    *rand.Rand
+	hits   map[string]uint64
+	delays map[string]uint64
+}
+
+type verifPointCfg struct {
+	pct   float64
+	maxUs int
+}
+
+func verifInit() {
+	verifState.hits = make(map[string]uint64)
+	verifState.delays = make(map[string]uint64)
+	verifState.points = make(map[string]verifPointCfg)
+	if fn := os.Getenv("RDPGW_VERIF_EVENTS"); fn != "" {
+		f, err := os.OpenFile(fn, os.O_WRONLY|os.O_CREATE|os.O_APPEND, 0600)
+		if err == nil {
+			verifState.f = f
+		}
+	}
+	seed := int64(1)
+	if s := os.Getenv("RDPGW_VERIF_SEED"); s != "" {
+		if v, err := strconv.ParseInt(s, 10, 64); err == nil {
+			seed = v
+		}
+	}
+	verifState.rnd = rand.New(rand.NewSource(seed))
+	for _, item := range strings.Split(os.Getenv("RDPGW_VERIF_POINTS"), ",") {
+		item = strings.TrimSpace(item)
+		if item == "" {
+			continue
+		}
+		nv := strings.SplitN(item, "=", 2)
+		if len(nv) != 2 {
+			continue
+		}
+		pm := strings.SplitN(nv[1], ":", 2)
+		if len(pm) != 2 {
+			continue
+		}
+		pct, err1 := strconv.ParseFloat(pm[0], 64)
+		maxUs, err2 := strconv.Atoi(pm[1])
+		if err1 != nil || err2 != nil || maxUs < 1 {
+			continue
+		}
+		verifState.points[nv[0]] = verifPointCfg{pct: pct, maxUs: maxUs}
+	}
+}
+
+func verifEvent(kind string, t *Tunnel, kv ...any) {
+	verifState.once.Do(verifInit)
+	if verifState.f == nil {
+		return
+	}
+	m := map[string]any{"kind": kind, "ns": time.Now().UnixNano()}
+	if t != nil {
+		m["tunnel"] = fmt.Sprintf("%p", t)
+		m["id"] = t.Id
+		m["rdgid"] = t.RDGId
+	}
+	for i := 0; i+1 < len(kv); i += 2 {
+		m[fmt.Sprint(kv[i])] = kv[i+1]
+	}
+	verifState.mu.Lock()
+	verifState.seq++
+	m["seq"] = verifState.seq
+	b, err := json.Marshal(m)
+	if err == nil {
+		verifState.f.Write(append(b, '\n'))
+	}
+	verifState.mu.Unlock()
+}
+
+func verifPoint(name string) {
+	verifState.once.Do(verifInit)
+	verifState.mu.Lock()
+	verifState.hits[name]++
+	cfg, ok := verifState.points[name]
+	var d time.Duration
+	if ok && verifState.rnd.Float64()*100 < cfg.pct {
+		d = time.Duration(1+verifState.rnd.Intn(cfg.maxUs)) * time.Microsecond
+		verifState.delays[name]++
+	}
+	verifState.mu.Unlock()
+	if d > 0 {
+		time.Sleep(d)
+	}
+}
+
+// VerifPointCounters reports how often each point was hit and delayed.
+func VerifPointCounters() (hits map[string]uint64, delays map[string]uint64) {
+	verifState.once.Do(verifInit)
+	hits = make(map[string]uint64)
+	delays = make(map[string]uint64)
+	verifState.mu.Lock()
+	for k, v := range verifState.hits {
+		hits[k] = v
+	}
+	for k, v := range verifState.delays {
+		delays[k] = v
+	}
+	verifState.mu.Unlock()
+	return
+}
